@@ -17,7 +17,7 @@ type OutPt2 struct {
 	prev     *OutPt2
 	pt       Point64
 	ownerIdx int
-	edge     []*OutPt2
+	edge     *[]*OutPt2
 }
 
 func NewOutPt2(pt Point64) *OutPt2 {
@@ -662,7 +662,7 @@ func addToEdge(edge *[]*OutPt2, op *OutPt2) {
 	if op.edge != nil {
 		return
 	}
-	op.edge = *edge
+	op.edge = edge
 	*edge = append(*edge, op)
 }
 
@@ -670,11 +670,12 @@ func uncoupleEdge(op *OutPt2) {
 	if op.edge == nil {
 		return
 	}
-	for i, op2 := range op.edge {
+	for i, op2 := range *op.edge {
 		if op2 != op {
 			continue
 		}
-		op.edge[i] = nil
+		(*op.edge)[i] = nil
+		break
 	}
 	op.edge = nil
 }
